@@ -64,14 +64,8 @@ def scenarios(tier: str) -> list[dict]:
         out.append({"path": "srv-shutdown", "variant": v})
     # another task is inside send_packet() towards a peer that does not read (it holds the object's send lock) when the close starts:
     # the close can only end through cancellation, and a cancelled close must still release the socket (seed C14-7)
-    # NOT registered yet (session 3 ran out of time before the two reports below were triaged, see DESIGN.md 10.8): set
-    # VERIF_C14_LOCKHOLDER=1 to run them. On the unchanged tree they report client-connected/.../socket-left-open
-    # (AsyncTCPNetworkClient.aclose() cancelled while it waits for the send lock leaves the endpoint open) and
-    # srv-client-aclose/.../close-never-finishes (untriaged).
-    import os as _os
-    if _os.environ.get("VERIF_C14_LOCKHOLDER") == "1":
-        out.append({"path": "srv-client-aclose", "variant": "sender-holds-lock"})
-        out.append({"path": "client-connected", "variant": "sender-holds-lock"})
+    out.append({"path": "srv-client-aclose", "variant": "sender-holds-lock"})
+    out.append({"path": "client-connected", "variant": "sender-holds-lock"})
     return out
 
 
@@ -264,6 +258,11 @@ def run(ctx: Ctx, cfg: dict) -> dict:
         out["leaves_closed"] = [lf.closed for lf in leaves]
         out["sock_closed"] = None if sock is None else sock.closed_flag
         out["is_closing"] = obj.is_closing()
+        if st.get("sender") is not None and not st["sender"].done():
+            # the obligations of the cancelled close have been observed: end the blocked sender so that its lock does not stall the later
+            # closes and the final shutdown (DESIGN 10.6)
+            st["sender"].cancel()
+            await asyncio.wait([st["sender"]])
         # a close issued now must return promptly
         t0, i0 = world.clock, loop.iterations
         third = loop.create_task(obj.aclose())
@@ -356,14 +355,17 @@ def run_job(job: dict) -> JobResult:
         res.outcome(f"close-{obs.get('closer', obs['status'])}" if bad is None else "VIOLATION:" + bad)
         shape = tuple((k, n) for _s, k, n in obs["trace"])
         res.nontrivial.add(digest((tuple(sorted(cfg.items())), obs.get("closer"), obs["status"], shape)))
-        if bad is not None and (bad not in found or len(ctx.choices) < len(found[bad][0].choices)):
-            found[bad] = (ctx, obs)
+        fkey = bad if bad is None or cfg.get("variant") != "sender-holds-lock" else f"{bad}|{obs.get('closer')}"
+        if bad is not None and (fkey not in found or len(ctx.choices) < len(found[fkey][0].choices)):
+            found[fkey] = (ctx, obs)
 
     stats = explore(lambda ctx: run(ctx, cfg), bound=bound, check=check, max_runs=30000)
     res.transitions += stats["points"]
     if stats["cap_hit"]:
         res.caps.append("max_runs")
     for bad, (ctx, obs) in found.items():
+        if cfg.get("variant") == "sender-holds-lock":
+            bad = f"{bad.split('|')[0]}/close-{obs.get('closer')}"
         sub = cfg.get("variant") or f"{cfg.get('fa', '')}-{cfg.get('fb', '')}"
         res.violations.append(Violation(
             f"{cfg['path']}/{sub}/{bad}",
